@@ -830,6 +830,9 @@ func lenFamily(tier string) []int {
 }
 
 func enumBytes(tier string, yield func(core.Case) bool) {
+	if !enumBytesBeyond(yield) {
+		return
+	}
 	for _, n := range lenFamily(tier) {
 		for seed := byte(0); seed < 2; seed++ {
 			n, seed := n, seed
@@ -913,6 +916,54 @@ func enumBytes(tier string, yield func(core.Case) bool) {
 			}
 		}
 	}
+}
+
+// enumBytesBeyond: length prefixes that announce more than the input holds, up to the largest varints (a signed
+// end offset computed from them wraps): every reader reports an error exactly when the reference does, and the
+// same number of bytes otherwise; none panics.
+func enumBytesBeyond(yield func(core.Case) bool) bool {
+	var lens []uint64
+	for _, c := range []uint64{0, 1 << 7, 1 << 14, 1 << 31, 1 << 32, 1 << 62, 1 << 63} {
+		for d := -12; d <= 2; d++ {
+			lens = append(lens, c+uint64(d))
+		}
+	}
+	for _, n := range lens {
+		for _, have := range []int{0, 1, 5, 11} {
+			n, have := n, have
+			if !yield(mk("length-delimited", fmt.Sprintf("announced=%d present=%d", n, have), func(r *core.Result) {
+				in := append(gpw.AppendVarint(nil, n), payload(have, 1)...)
+				gv, gn := gpw.ConsumeBytes(in)
+				v, ln, all := dpw.ConsumeBytes(in)
+				if (all < 0) != (gn < 0) || (gn >= 0 && (all != gn || !bytes.Equal(v, gv) || ln != gn-len(gv))) {
+					r.Add("ConsumeBytes|announced-beyond-input|differs", "announced %d, %d present: got (len(v)=%d,%d,%d) reference (%d,%d)", n, have, len(v), ln, all, len(gv), gn)
+				}
+				if _, _, all := dec.DecodeBytes(in); (all < 0) != (gn < 0) || (gn >= 0 && all != gn) {
+					r.Add("DecodeBytes|announced-beyond-input|differs", "announced %d, %d present: consumed %d reference %d", n, have, all, gn)
+				}
+				if _, _, all := dec.DecodeString(in); (all < 0) != (gn < 0) || (gn >= 0 && all != gn) {
+					r.Add("DecodeString|announced-beyond-input|differs", "announced %d, %d present: consumed %d reference %d", n, have, all, gn)
+				}
+				q := BP{Buf: in}
+				if _, err := q.ReadBytes(); (err != nil) != (gn < 0) || (gn >= 0 && q.Read != gn) {
+					r.Add("ReadBytes|announced-beyond-input|differs", "announced %d, %d present: err %v cursor %d reference %d", n, have, err, q.Read, gn)
+				}
+				for _, cp := range []bool{false, true} {
+					q = BP{Buf: in}
+					if _, err := q.ReadString(cp); (err != nil) != (gn < 0) || (gn >= 0 && q.Read != gn) {
+						r.Add("ReadString|announced-beyond-input|differs", "announced %d, %d present, copy=%v: err %v cursor %d reference %d", n, have, cp, err, q.Read, gn)
+					}
+				}
+				q = BP{Buf: in}
+				if err := q.Skip(dproto.BytesType, false); (err != nil) != (gn < 0) || (gn >= 0 && q.Read != gn) {
+					r.Add("Skip:bytes|announced-beyond-input|differs", "announced %d, %d present: err %v cursor %d reference %d", n, have, err, q.Read, gn)
+				}
+			})) {
+				return false
+			}
+		}
+	}
+	return true
 }
 
 func hx(b []byte) string {
